@@ -49,6 +49,21 @@ func stringWorkload(r *Run, v2 bool, visit strVisitor) {
 						}
 					}
 					visit(w, join3("CVSS:"+spec.V3Versions[v.Ver], toks3(&v, L, rng, k > 0)), m)
+					if k == 0 && idx%16 == 3 {
+						// the same metrics in the orders other tools write (sorted by name, by token, reversed, groups
+						// exchanged as blocks ...), with every Not Defined metric of the level spelled as well
+						full := v
+						for mi := spec.E; mi < spec.V3LevelEnd(L); mi++ {
+							if full.M[mi] < 0 {
+								full.M[mi] = 0
+							}
+						}
+						for _, vv := range []*spec.V3{&v, &full} {
+							for _, o := range namedOrders(vv.Tokens(L)) {
+								visit(w, join3("CVSS:"+spec.V3Versions[v.Ver], o), m)
+							}
+						}
+					}
 				}
 			}
 		})
